@@ -10,7 +10,10 @@ Extra == [cyc_120 |-> [factor |-> 1, conj |-> FALSE, axes |-> <<1, 2, 0>>],
           cyc_201 |-> [factor |-> -1, conj |-> FALSE, axes |-> <<2, 0, 1>>],
           rev_210 |-> [factor |-> 1, conj |-> TRUE, axes |-> <<2, 1, 0>>],
           conj |-> [factor |-> 1, conj |-> TRUE, axes |-> <<>>],
-          conj_trans |-> [factor |-> -1, conj |-> TRUE, axes |-> <<1, 0>>]]
+          conj_trans |-> [factor |-> -1, conj |-> TRUE, axes |-> <<1, 0>>],
+          \* realised by the harness through Transform(swap_axes=...): the same permutations given the other way
+          swap_12 |-> [factor |-> 1, conj |-> FALSE, axes |-> <<1, 0>>],
+          swap_13c |-> [factor |-> -1, conj |-> TRUE, axes |-> <<2, 1, 0>>]]
 All == [n \in (DOMAIN Predefined) \cup (DOMAIN Extra) |-> IF n \in DOMAIN Predefined THEN Predefined[n] ELSE Extra[n]]
 Names(r) == {n \in DOMAIN All : Len(All[n].axes) <= r}
 Generic(r, v) == [rank |-> r, re |-> [p \in 1..Pow3(r) |-> ((p * p * (v + 1) + 3 * p + v) % 7) - 3],
